@@ -221,6 +221,16 @@ def run_property(chk, prop, want, other):
     """Common driver. `want`: prefixes of harness findings that are violations
     of this property; `other`: prefixes that belong to the sibling property."""
     ok, out = vlib.standard_proof_stage(chk, prop, THEOREMS[prop])
+    if ok and chk.tier == "thorough":
+        with vlib.lock("coq"):
+            try:
+                rc, cout = vlib.sh(["timeout", "900", "coqchk", "-silent", "-o", "-Q", ".", "Sessions", "Sessions.Properties." + prop], cwd=vlib.COQ)
+            except Exception as e:  # noqa: BLE001
+                rc, cout = 1, str(e)
+        good = rc == 0 and "* Axioms: <none>" in cout
+        chk.oblige("coqchk re-checks the .vo closure of Properties/%s.v: no axioms" % prop, good)
+        chk.coverage["coqchk_tail"] = cout[-600:]
+        ok = ok and good
     binary, blog = vlib.build_harness()
     chk.oblige("harness builds against the current tree", binary is not None)
     if binary is None:
